@@ -6,6 +6,7 @@ import JominiModel.Proofs.TextReaderStream
 import JominiModel.Proofs.TextReaderFast
 import JominiModel.Proofs.TextFault
 import JominiModel.Proofs.TextReaderFaithful
+import JominiModel.Proofs.TextReaderUnfit
 import JominiModel.Generated.Tables
 /-
 C07 — the streaming text reader is independent of read chunking and buffer size.
@@ -32,7 +33,8 @@ Proved here (about the model `Model/TextReader.lean`):
   never ends in `BufferFull`, hence streamed = from-slice for every capacity that fits.
 
 Not proved (decided by the correspondence run + implementation oracle only), statement kept at the end:
-* `C07_unfit_is_full`: the converse, a buffer smaller than `need` always ends in `BufferFull`.
+* `C07_unfit_is_full`: the converse, a buffer smaller than `need` always ends in `BufferFull` (proved for unfit tokens:
+  `C07_unfit_is_full_partial`).
 -/
 namespace Jomini.Props.C07
 open Jomini Jomini.TextReader Jomini.TextReader.Spec Jomini.TextReader.Swar
@@ -406,14 +408,48 @@ example :
     (sliceTokens (renderM doc ++ [10])).toks = (itemsM doc).map (fun x => x.2.tok) := by
   decide +kernel
 
+/-! ### the converse: what does not fit ends in BufferFull -/
+
+/-- every token the streaming reader returns was inside its buffer (any schedule, cap ≥ 1): `tokSize` = the bytes of an
+unquoted scalar, resp. the content of a quoted scalar plus its closing quote. -/
+theorem C07_returned_tokens_fit (data : Bytes) (cap : Nat) (sched : List Step) (hcap : 0 < cap) :
+    ∀ t ∈ (streamTokens cap sched data).toks, tokSize t ≤ cap :=
+  streamTokens_tok_size data cap sched hcap
+
+/-- **`C07_unfit_is_full`, token form (partial).**  If the input contains a token that cannot fit the buffer — an unquoted
+scalar longer than `cap`, or a quoted scalar whose content plus closing quote is longer than `cap` — then EVERY
+fault-free read schedule ends in `BufferFull`, after a prefix of the from-slice tokens (never a clean end, never a split
+or altered token).
+
+Full statement (`C07_unfit_is_full`, not proved): the same under `cap < need data`, which in addition counts the look-ahead
+byte after an unquoted scalar / operator, comments, `@[…` prefixes and the BOM arm; on the real code the op `tneed` checks
+it for `cap = need − 1` (oracle `need-not-tight`, 0 violations).  Missing for the proof: that the carries of the scans of
+successive window prefixes inside one item never decrease (the item's start is fixed), so that a prefix the schedule did
+not stop at is bounded by the next one it did stop at. -/
+theorem C07_unfit_is_full_partial (data : Bytes) (cap : Nat) (sched : List Step) (hcap : 0 < cap) (hw : WfSched sched)
+    (hnf : NoFaults sched) (t : Token) (ht : t ∈ (sliceTokens data).toks) (hbig : cap < tokSize t) :
+    (streamTokens cap sched data).out = .err .full ∧
+    (streamTokens cap sched data).toks <+: (sliceTokens data).toks := by
+  rcases C07_stream_eq_slice data cap sched hcap hw hnf with ⟨a, b, _⟩ | ⟨a, _, _⟩
+  · exact ⟨a, b⟩
+  · exfalso
+    rw [← a] at ht
+    have := C07_returned_tokens_fit data cap sched hcap t ht
+    omega
+
+-- `abcdef ` holds the 6-byte scalar `abcdef`; a 4-byte buffer cannot return it
+example : Token.unquoted [97, 98, 99, 100, 101, 102] ∈ (sliceTokens [97, 98, 99, 100, 101, 102, 32]).toks := by
+  decide +kernel
+
 /-
 Not proved; statement kept as the obligation (exercised on the real code by the op `tneed`, oracle `need-not-tight`, and
 by the oracle `overflow-not-error`):
 
 theorem C07_unfit_is_full (data cap sched) (hcap : 0 < cap) (h : cap < need data) (hw : WfSched sched) (hnf : NoFaults sched) :
     (streamTokens cap sched data).out = .err .full
-  -- the converse of C07_full_only_if_unfit: with too small a buffer the run always ends in BufferFull
-  -- (C07_overflow_is_error already gives: whenever the result differs from the slice result it is BufferFull after a prefix).
+  -- the converse of C07_full_only_if_unfit, for EVERY fault-free schedule: with too small a buffer the run always ends in
+  -- BufferFull.  Proved above for unfit TOKENS (`C07_unfit_is_full_partial`); open for the look-ahead byte, comments,
+  -- `@[…` prefixes and the BOM arm.
 -/
 
 end Jomini.Props.C07
